@@ -52,6 +52,10 @@ class C09(PropBase):
                 ops.append({'op': 'ifm', 'k': slot, 'id': i, 'ext': e, 'data': d})
         # layer level: emission, functional rule, ignored frames
         params = {}
+        if rng.random() < 0.3:
+            # a tester that broadcasts by default: only what send() is not told explicitly follows it; First / Consecutive Frames and
+            # Flow Control stay physically addressed
+            params['default_target_address_type'] = 1
         if rng.random() < 0.5:
             params['tx_data_length'] = rng.choice(gen.TXDLS)
         if rng.random() < 0.2:
